@@ -202,7 +202,9 @@ pub fn scientific_literal(input: ParseString) -> ParseResult<RealNumber> {
     Ok((input, RealNumber::Float(base))) => {
       (input, base)
     }
-    _ => match integer_literal(input.clone()) {
+    // An integer mantissa must be read without a kind suffix: `typed_integer`
+    // would otherwise swallow the exponent marker of `1e-3` as a suffix `e`.
+    _ => match untyped_integer(input.clone()) {
       Ok((input, RealNumber::TypedInteger((base,_))) ) => {
         (input, (base, Token::default()))
       }
